@@ -124,6 +124,19 @@ fn check_arena(arena: &Arena<Plain>, live: &[NodeId], prog_seed: u64, reps: usiz
             }
         }
     }
+    // through par_iter the readers must see exactly the nodes iter() shows (removed slots included)
+    if let Some(Err(m)) = <Plain as itv_core::payload::Payload>::par_check(arena) {
+        return Err(format!("par_iter: {m}"));
+    }
+    let (seq_all, seq_removed) = (arena.iter().count(), arena.iter().filter(|n| n.is_removed()).count());
+    let par_views: Vec<(usize, usize)> = std::thread::scope(|sc| {
+        let hs: Vec<_> = (0..4).map(|_| sc.spawn(|| (arena.par_iter().count(), arena.par_iter().filter(|n| n.is_removed()).count()))).collect();
+        hs.into_iter().map(|h| h.join().unwrap_or((usize::MAX, usize::MAX))).collect()
+    });
+    evals += 5;
+    if let Some(v) = par_views.iter().find(|v| **v != (seq_all, seq_removed)) {
+        return Err(format!("par_iter: a reader thread counted {:?} (nodes, removed) through par_iter(), iter() shows ({seq_all}, {seq_removed})", v));
+    }
     // an arena moved into another thread behaves the same
     let moved = arena.clone();
     let live2 = live.to_vec();
